@@ -229,6 +229,9 @@ pub struct Layout {
     /// `#[bitfield(uN, debug, default = x)]` instead of `#[bitfield(uN, default = x, debug)]`
     #[serde(default)]
     pub debug_first: bool,
+    /// visibility of the struct: 0 `pub`, 1 `pub(crate)`, 2 `pub(super)`
+    #[serde(default)]
+    pub vis: u8,
 }
 
 pub fn is_native_width(bits: u32) -> bool {
